@@ -29,7 +29,16 @@ def generate(rng, tier):
             v = rng.choice(vals) if i < 12 or rng.random() < 0.5 else rng.choice(["42", " -7\n", "+5", "0", "-9223372036854775808"])
             ops.append("%d:%s" % (i, enc(v)))
         cases.append(Case("md.ops", ops, meta={"nt": len(ops) > 1}))
+    # is_valid: every subset of the three required entries, set to an empty, a blank-only or a real value, in both orders
+    import itertools
+    for sub in itertools.product(["absent", "", " \n", "text\n"], repeat=3):
+        ops = ["%d:%s" % (i, enc(v)) for i, v in zip((2, 3, 5), sub) if v != "absent"]
+        if ops:
+            cases.append(Case("md.ops", ops, meta={"nt": True}))
+            cases.append(Case("md.ops", list(reversed(ops)) + ["13:%s" % enc("42")], meta={"nt": True}))
     cases.append(Case("db.iter", [], meta={"nt": True}))
+    cases.append(Case("db.other", ["file"], meta={"nt": True}))
+    cases.append(Case("db.other", ["missing"], meta={"nt": True}))
     for _ in range(n):
         ents = []
         used = set()
